@@ -181,24 +181,43 @@ func docxChild(b *strings.Builder, ch Child, cnt *counter, o Origin, insID *int)
 	switch ch.W {
 	case "r":
 		docxRun(b, ch, cnt, o, false)
+		return
 	case "span":
 		docxRun(b, ch, cnt, o, true)
-	case "link": // 17.16.22
-		b.WriteString(`<w:hyperlink r:id="rId9" w:history="1">`)
-		docxRun(b, ch, cnt, o, false)
-		b.WriteString(`</w:hyperlink>`)
-	case "ins": // 17.13.5.18 tracked insertion
-		fmt.Fprintf(b, `<w:ins w:id="%d" w:author="verif" w:date="2020-01-01T00:00:00Z">`, *insID)
-		*insID++
-		docxRun(b, ch, cnt, o, false)
-		b.WriteString(`</w:ins>`)
-	case "sdt": // 17.5.2.31 run-level structured document tag
-		fmt.Fprintf(b, `<w:sdt><w:sdtPr><w:id w:val="%d"/></w:sdtPr><w:sdtContent>`, 1000+*insID)
-		*insID++
-		docxRun(b, ch, cnt, o, false)
-		b.WriteString(`</w:sdtContent></w:sdt>`)
-	default:
-		panic("wpw: wrapper " + ch.W + " is not in the DOCX alphabet")
+		return
+	}
+	// inline containers, possibly nested: "outer>inner>..."
+	boxes := strings.Split(ch.W, ">")
+	var closers []string
+	for _, box := range boxes {
+		switch box {
+		case "link": // 17.16.22
+			b.WriteString(`<w:hyperlink r:id="rId9" w:history="1">`)
+			closers = append(closers, `</w:hyperlink>`)
+		case "ins": // 17.13.5.18 tracked insertion
+			fmt.Fprintf(b, `<w:ins w:id="%d" w:author="verif" w:date="2020-01-01T00:00:00Z">`, *insID)
+			*insID++
+			closers = append(closers, `</w:ins>`)
+		case "sdt": // 17.5.2.31 run-level structured document tag
+			fmt.Fprintf(b, `<w:sdt><w:sdtPr><w:id w:val="%d"/></w:sdtPr><w:sdtContent>`, 1000+*insID)
+			*insID++
+			closers = append(closers, `</w:sdtContent></w:sdt>`)
+		case "smartTag": // 17.5.1.9
+			b.WriteString(`<w:smartTag w:uri="urn:verif" w:element="tag">`)
+			closers = append(closers, `</w:smartTag>`)
+		case "fldSimple": // 17.16.19
+			b.WriteString(`<w:fldSimple w:instr=" AUTHOR ">`)
+			closers = append(closers, `</w:fldSimple>`)
+		case "bdo": // 17.3.2.3 bidirectional override
+			b.WriteString(`<w:bdo w:val="ltr">`)
+			closers = append(closers, `</w:bdo>`)
+		default:
+			panic("wpw: wrapper " + ch.W + " is not in the DOCX alphabet")
+		}
+	}
+	docxRun(b, ch, cnt, o, false)
+	for i := len(closers) - 1; i >= 0; i-- {
+		b.WriteString(closers[i])
 	}
 }
 
@@ -232,6 +251,12 @@ func docxTable(b *strings.Builder, tb Block, cnt *counter, blk int) {
 					fmt.Fprintf(b, `<w:sdt><w:sdtPr><w:id w:val="%d"/></w:sdtPr><w:sdtContent>`, 8000+cnt.n)
 				}
 				for p := 0; p < g.Np; p++ {
+					if p == 0 && tb.How == "cellnest" && !g.Rich { // the run inside a tracked insertion inside a hyperlink
+						o.Wrap = "cell:link>ins"
+						fmt.Fprintf(b, `<w:p><w:hyperlink r:id="rId9"><w:ins w:id="%d" w:author="verif" w:date="2020-01-01T00:00:00Z"><w:r><w:t>%s</w:t></w:r></w:ins></w:hyperlink></w:p>`, 9000+cnt.n, TokText(cnt.next(o)))
+						o.Wrap = "cell"
+						continue
+					}
 					if p == 0 && g.Rich { // text and a symbol in one run
 						o.Rich = true
 						fmt.Fprintf(b, "<w:p><w:r><w:t>%s</w:t>", TokText(cnt.next(o)))
